@@ -95,6 +95,11 @@ func Main(m *testing.M, property string) {
 	}
 	loadKnown()
 	code := m.Run()
+	if unlisted, harnessOnly := processRaceLogs(); unlisted > 0 && code == 0 {
+		code = 1
+	} else if harnessOnly > 0 {
+		Note("harness_only_races", fmt.Sprint(harnessOnly))
+	}
 	writeFragment(code)
 	os.Exit(code)
 }
